@@ -106,6 +106,17 @@ func main() {
 		r.Do("t6", append([]string{cfg.Tok(), "0"}, ops...)...)
 		r.Stat("class.dhcp-path-directed", 1)
 	}
+	// bounded-exhaustive under the discipline (N after every frame): depth 1..2, depth 1..4 in thorough
+	maxDepth := 2
+	if r.Thorough() {
+		maxDepth = 4
+	}
+	for d := 1; d <= maxDepth; d++ {
+		tables.Exhaustive(u, d, true, func(ops []string) {
+			r.Do("t6", append([]string{cfg.Tok(), "0"}, ops...)...)
+			r.Stat("class.exhaustive", 1)
+		})
+	}
 	for i := 0; i < nShort+nLong; i++ {
 		n := 30 + rng.Intn(31)
 		if i < nShort {
